@@ -208,6 +208,10 @@ func c14LocalActions(t *testing.T, r *vReport, idx *int64, root string) {
 					a.WriteString("inputs:\n")
 					for _, in := range ins {
 						a.WriteString("  " + in.name + ":\n    description: d\n")
+						if names[0] == "args" {
+							// keys of an input that say nothing about whether it must be given
+							a.WriteString("    deprecationMessage: use something else\n")
+						}
 						if in.required {
 							a.WriteString("    required: true\n")
 						}
@@ -465,6 +469,52 @@ func c14CaseTwins(t *testing.T, r *vReport, idx *int64, root string) {
 				c14Compare(r, "undeclared-output", "case-twins", desc, w, c14Set(res.Errs, c14PropRe), wantProp, extra)
 				r.Class(fmt.Sprintf("case-twins swapped=%d", swapped), swapped == 1)
 			}
+		}
+	}
+}
+
+// c14DuplicatedNames: a callee that declares a name twice in different letter cases (the workflow
+// parser reports the repetition and keeps the FIRST declaration): the interface read from the file
+// must be the same one, otherwise what the caller is told depends on which route filled the cache.
+func c14DuplicatedNames(t *testing.T, r *vReport, idx *int64, root string) {
+	dir := filepath.Join(root, "dupnames")
+	vWriteFiles(t, dir, map[string]string{".git/HEAD": "x\n", ".github/workflows/.keep": ""})
+	caller := "on: push\njobs:\n  c:\n    uses: ./.github/workflows/callee.yml\n  d:\n    needs: c\n    runs-on: ubuntu-latest\n    steps:\n      - run: echo ${{ needs.c.outputs.out }} ${{ needs.c.outputs.OUT }}\n"
+	for _, firstRequired := range []bool{true, false} {
+		for _, section := range []string{"inputs", "secrets", "outputs"} {
+			*idx++
+			if !r.Mine(*idx) {
+				continue
+			}
+			req := func(b bool) string {
+				if b {
+					return "true"
+				}
+				return "false"
+			}
+			var body string
+			switch section {
+			case "inputs":
+				body = "    inputs:\n      foo:\n        type: string\n        required: " + req(firstRequired) + "\n      FOO:\n        type: number\n        required: " + req(!firstRequired) + "\n"
+			case "secrets":
+				body = "    secrets:\n      tok:\n        required: " + req(firstRequired) + "\n      TOK:\n        required: " + req(!firstRequired) + "\n"
+			case "outputs":
+				body = "    outputs:\n      out:\n        value: a\n      OUT:\n        value: b\n"
+			}
+			callee := "on:\n  workflow_call:\n" + body + "jobs:\n  j:\n    runs-on: ubuntu-latest\n    steps:\n      - run: echo\n"
+			fe, ae, err := c14LintBoth(dir, callee, caller)
+			r.Evaluations++
+			r.Transitions += 2
+			r.Validated += 2
+			desc := fmt.Sprintf("callee declaring a name of %s twice (first required=%v)", section, firstRequired)
+			if err != nil {
+				r.Violation("failure", fmt.Sprintf("%s: %v", desc, err), map[string]any{"desc": desc, "src": caller, "callee": callee})
+				continue
+			}
+			if c14ErrKey(fe) != c14ErrKey(ae) {
+				r.Violation("derivation-disagreement:duplicated-name:"+section, fmt.Sprintf("%s: the caller's diagnostics depend on whether the callee's interface comes from its file or from its AST\n from file: %q\n from AST:  %q\ncallee:\n%s", desc, c14ErrKey(fe), c14ErrKey(ae), callee), map[string]any{"desc": "callee events", "what": "callee-events", "family": "duplicated-name", "src": caller, "callee": callee, "callee_base": callee})
+			}
+			r.Class("duplicated name in callee "+section, len(fe) > 0)
 		}
 	}
 }
@@ -861,7 +911,7 @@ func c14HasKind(errs []*Error, kinds ...string) bool {
 func TestVerifC14(t *testing.T) {
 	r := vNewReport("C14")
 	defer r.Write(t)
-	r.Extra["rule"] = "every spec of the bundled popular-actions table x call sites {none, required, all, required minus each, one extra, re-cased} with references to every declared and one undeclared output; 343 local action interfaces (3 inputs over absent/optional/required/required+default/optional+default/required+empty default/required+falsy default) x 0-2 outputs x every subset of declared inputs + extra + re-cased; 256 reusable-workflow input interfaces (2 inputs over absent | type x required x default incl. empty and falsy defaults) x 7 secret sets (explicit / absent required key, empty body, both declaration orders) x 0-1 outputs x 8+ call sites (none, required, all re-cased, extra input, extra secret, inherit, inherit without inputs, undeclared input holding an expression, minus each), interface derived from the file and from the AST (callee linted first in the same run), every case with 4 forms of the callee's `on:` (other events before / after workflow_call); 3 types x 54 typed values (literals in every spelling of the YAML core schema, plain and quoted; expressions); derivation agreement over 3 types x 6 spellings of required x 7 of default x 3 of a secret's required (literal and expression values) x 2 call sites. two local actions whose directory names differ in letter case only (3 pairs x step order x own / swapped interface); oracle = set arithmetic on the declared interface. class = (family, call site, expected report counts); non-trivial = something must be reported"
+	r.Extra["rule"] = "every spec of the bundled popular-actions table x call sites {none, required, all, required minus each, one extra, re-cased} with references to every declared and one undeclared output; 343 local action interfaces (3 inputs - in the second name set every one with a deprecationMessage - over absent/optional/required/required+default/optional+default/required+empty default/required+falsy default) x 0-2 outputs x every subset of declared inputs + extra + re-cased; 256 reusable-workflow input interfaces (2 inputs over absent | type x required x default incl. empty and falsy defaults) x 7 secret sets (explicit / absent required key, empty body, both declaration orders) x 0-1 outputs x 8+ call sites (none, required, all re-cased, extra input, extra secret, inherit, inherit without inputs, undeclared input holding an expression, minus each), interface derived from the file and from the AST (callee linted first in the same run), every case with 4 forms of the callee's `on:` (other events before / after workflow_call); 3 types x 54 typed values (literals in every spelling of the YAML core schema, plain and quoted; expressions); derivation agreement over 3 types x 6 spellings of required x 7 of default x 3 of a secret's required (literal and expression values) x 2 call sites. two local actions whose directory names differ in letter case only (3 pairs x step order x own / swapped interface); oracle = set arithmetic on the declared interface. class = (family, call site, expected report counts); non-trivial = something must be reported"
 	r.Extra["assumptions"] = []string{"for bundled actions the table itself is the declaration (its content is not frozen)", "assignability per docs/checks.md: string <- string|number, number <- number, boolean <- anything, anything <- any"}
 	root := vTempDir(t, "c14-")
 	if raw := vReplayInput(); raw != nil {
@@ -939,4 +989,5 @@ func TestVerifC14(t *testing.T) {
 	c14LocalActions(t, r, &idx, root)
 	c14Workflows(t, r, &idx, root)
 	c14CaseTwins(t, r, &idx, root)
+	c14DuplicatedNames(t, r, &idx, root)
 }
